@@ -8,6 +8,8 @@ import (
 	"github.com/cnotch/ipchub/av/format/rtp"
 	"github.com/cnotch/ipchub/config"
 	"github.com/cnotch/ipchub/media"
+	"github.com/cnotch/ipchub/network/websocket"
+	"github.com/cnotch/ipchub/service/wsp"
 	"github.com/cnotch/ipchub/stats"
 	"github.com/cnotch/xlog"
 
@@ -16,6 +18,7 @@ import (
 	"ipchubverif/oracle/rtppack"
 	"ipchubverif/oracle/rtspwire"
 	"ipchubverif/report"
+	"ipchubverif/vnet"
 	"ipchubverif/vrt"
 )
 
@@ -45,7 +48,9 @@ func alphabet() []sym {
 		{name: "OPTIONS", method: "OPTIONS", url: base},
 		{name: "DESCRIBE", method: "DESCRIBE", url: base},
 		{name: "DESCRIBE-missing", method: "DESCRIBE", url: "rtsp://h/none"},
+		{name: "DESCRIBE-second-stream", method: "DESCRIBE", url: "rtsp://h/live/cam2"},
 		{name: "ANNOUNCE", method: "ANNOUNCE", url: pub, headers: sdpCT, body: hx.SdpH264AAC},
+		{name: "ANNOUNCE-over-live-path", method: "ANNOUNCE", url: base, headers: sdpCT, body: hx.SdpH264AAC},
 		{name: "ANNOUNCE-wrong-content-type", method: "ANNOUNCE", url: pub, headers: map[string]string{"Content-Type": "text/plain"}, body: hx.SdpH264AAC},
 		{name: "ANNOUNCE-malformed-sdp", method: "ANNOUNCE", url: pub, headers: sdpCT, body: "this is not sdp\r\n"},
 		{name: "ANNOUNCE-sdp-without-formats", method: "ANNOUNCE", url: pub, headers: sdpCT, body: sdpNoFormat},
@@ -54,6 +59,9 @@ func alphabet() []sym {
 		{name: "SETUP-video-udp", method: "SETUP", url: base + "/streamid=0", headers: udpV},
 		{name: "SETUP-video-multicast", method: "SETUP", url: base + "/streamid=0", headers: mcV},
 		{name: "SETUP-video-record", method: "SETUP", url: pub + "/streamid=0", headers: recV},
+		{name: "SETUP-audio-record", method: "SETUP", url: pub + "/streamid=1", headers: map[string]string{"Transport": "RTP/AVP/TCP;unicast;interleaved=2-3;mode=record"}},
+		{name: "SETUP-audio-udp", method: "SETUP", url: base + "/streamid=1", headers: map[string]string{"Transport": "RTP/AVP;unicast;client_port=40002-40003"}},
+		{name: "SETUP-video-tcp-ch45", method: "SETUP", url: base + "/streamid=0", headers: map[string]string{"Transport": "RTP/AVP/TCP;unicast;interleaved=4-5"}},
 		{name: "SETUP-bad-transport", method: "SETUP", url: base + "/streamid=0", headers: badT},
 		{name: "SETUP-unknown-control", method: "SETUP", url: base + "/streamid=7", headers: tcpV},
 		{name: "PLAY", method: "PLAY", url: base},
@@ -66,17 +74,215 @@ func alphabet() []sym {
 	}
 }
 
+
+// ---------------------------------------------------------------- the three transports
+
+// link is one client connection to a session, whatever carries it.
+type link interface {
+	Do(s sym) (cseq int, items []rtspwire.Item) // send, let the server settle, return what arrived (in order)
+	Drain() []rtspwire.Item
+	Disconnect()
+	ServerClosed() bool
+	Garbled() string
+	Status() int      // 0 init, 1 ready, 2 playing, 3 recording
+	ImplKey() string  // the session fields the handlers read
+	RoleKey() string  // method state and roles only (what a refusal other than 455 must leave alone)
+	Released() string // "" when the server side is fully released after the end
+}
+
+// --- RTSP over TCP
+type tcpLink struct{ c *hs.Client }
+
+func (l tcpLink) Do(s sym) (int, []rtspwire.Item) { return l.c.Do(s.method, s.url, s.headers, s.body) }
+func (l tcpLink) Drain() []rtspwire.Item          { return l.c.Drain() }
+func (l tcpLink) Disconnect()                     { l.c.Conn.Close() }
+func (l tcpLink) ServerClosed() bool              { return l.c.Srv.IsClosed() }
+func (l tcpLink) Garbled() string {
+	if l.c.ParseErr != nil || len(l.c.Rest) != 0 {
+		return fmt.Sprintf("%v rest=%d", l.c.ParseErr, len(l.c.Rest))
+	}
+	return ""
+}
+func (l tcpLink) Status() int { return l.c.Sess.VerifStatus() }
+func (l tcpLink) ImplKey() string {
+	z := l.c.Sess
+	return fmt.Sprintf("%d/%d/%v/%v/%s/%s", z.VerifStatus(), z.VerifMode(), z.VerifHasConsumer(), z.VerifHasStream(), z.VerifPath(), z.VerifTransport())
+}
+func (l tcpLink) RoleKey() string {
+	z := l.c.Sess
+	return fmt.Sprintf("%d/%d/%v/%v/%s", z.VerifStatus(), z.VerifMode(), z.VerifHasConsumer(), z.VerifHasStream(), z.VerifPath())
+}
+func (l tcpLink) Released() string {
+	if !l.c.Srv.IsClosed() {
+		return "server-side-connection-not-closed"
+	}
+	return ""
+}
+
+// --- RTSP over websocket (subprotocol "rtsp"): one request / response / frame per message
+type wsLink struct{ c *hs.WSClient }
+
+func (l wsLink) Do(s sym) (int, []rtspwire.Item) { return l.c.Do(s.method, s.url, s.headers, s.body) }
+func (l wsLink) Drain() []rtspwire.Item          { return l.c.Drain() }
+func (l wsLink) Disconnect()                     { l.c.Sock.ClientClose() }
+func (l wsLink) ServerClosed() bool              { return l.c.Sock.IsClosed() }
+func (l wsLink) Garbled() string                 { return strings.Join(l.c.TornMsgs, "; ") }
+func (l wsLink) Status() int                     { return l.c.Sess.VerifStatus() }
+func (l wsLink) ImplKey() string {
+	z := l.c.Sess
+	return fmt.Sprintf("%d/%d/%v/%v/%s/%s", z.VerifStatus(), z.VerifMode(), z.VerifHasConsumer(), z.VerifHasStream(), z.VerifPath(), z.VerifTransport())
+}
+func (l wsLink) RoleKey() string {
+	z := l.c.Sess
+	return fmt.Sprintf("%d/%d/%v/%v/%s", z.VerifStatus(), z.VerifMode(), z.VerifHasConsumer(), z.VerifHasStream(), z.VerifPath())
+}
+func (l wsLink) Released() string {
+	if !l.c.Sock.IsClosed() {
+		return "server-side-connection-not-closed"
+	}
+	return ""
+}
+
+// --- WSP: RTSP requests wrapped in WSP commands on a control channel, media on a data channel
+type wspLink struct {
+	srv        *wsp.VerifServer
+	ctl, data  *vnet.MsgSocket
+	channel    string
+	sess       *wsp.Session
+	seq, cseq  int
+	torn       []string
+	closedByUs bool
+}
+
+func newWSP(path string) *wspLink {
+	l := &wspLink{srv: wsp.VerifNewServer(), ctl: vnet.NewMsgSocket("wsp-ctl", "control"), data: vnet.NewMsgSocket("wsp-data", "data")}
+	l.srv.Accept(websocket.VerifNewConn(l.ctl, path, "u"))
+	l.seq++
+	l.ctl.Push(1, []byte(fmt.Sprintf("WSP/1.1 INIT\r\nproto: rtsp\r\nhost: h\r\nport: 554\r\nseq: %d\r\n\r\n", l.seq)))
+	vrt.WhenIdle()
+	for _, m := range l.ctl.Take() {
+		t := string(m.Data)
+		if i := strings.Index(t, "channel: "); i >= 0 {
+			l.channel = strings.TrimSpace(strings.SplitN(t[i+9:], "\r\n", 2)[0])
+		}
+	}
+	l.sess = l.srv.Session(l.channel)
+	l.srv.Accept(websocket.VerifNewConn(l.data, path, "u"))
+	l.seq++
+	l.data.Push(1, []byte(fmt.Sprintf("WSP/1.1 JOIN\r\nchannel: %s\r\nseq: %d\r\n\r\n", l.channel, l.seq)))
+	vrt.WhenIdle()
+	l.data.Take()
+	return l
+}
+
+func (l *wspLink) Do(s sym) (int, []rtspwire.Item) {
+	l.cseq++
+	l.seq++
+	var sb strings.Builder
+	fmt.Fprintf(&sb, "%s %s RTSP/1.0\r\nCSeq: %d\r\n", s.method, s.url, l.cseq)
+	for k, v := range s.headers {
+		fmt.Fprintf(&sb, "%s: %s\r\n", k, v)
+	}
+	if s.body != "" {
+		fmt.Fprintf(&sb, "Content-Length: %d\r\n", len(s.body))
+	}
+	sb.WriteString("\r\n")
+	sb.WriteString(s.body)
+	l.ctl.Push(1, []byte(fmt.Sprintf("WSP/1.1 WRAP\r\ncontentLength: %d\r\nseq: %d\r\n\r\n%s", sb.Len(), l.seq, sb.String())))
+	vrt.WhenIdle()
+	return l.cseq, l.Drain()
+}
+
+// Drain returns the RTSP responses unwrapped from the control channel followed by the frames of
+// the data channel (the two channels are not ordered with respect to each other).
+func (l *wspLink) Drain() []rtspwire.Item {
+	var out []rtspwire.Item
+	for _, m := range l.ctl.Take() {
+		t := string(m.Data)
+		i := strings.Index(t, "\r\n\r\n")
+		if !strings.HasPrefix(t, "WSP/1.1 200") || i < 0 {
+			l.torn = append(l.torn, fmt.Sprintf("control message is not one WSP 200 response: %q", trunc(t, 60)))
+			continue
+		}
+		if !strings.Contains(t[:i], fmt.Sprintf("seq: %d", l.seq)) {
+			l.torn = append(l.torn, fmt.Sprintf("WSP response does not echo seq %d: %q", l.seq, trunc(t, 80)))
+		}
+		items, rest, err := rtspwire.Parse([]byte(t[i+4:]))
+		if err != nil || len(rest) != 0 || len(items) != 1 || items[0].Frame {
+			l.torn = append(l.torn, fmt.Sprintf("WSP response does not wrap exactly one RTSP response: %q", trunc(t[i+4:], 60)))
+			continue
+		}
+		out = append(out, items[0])
+	}
+	for _, m := range l.data.Take() {
+		items, rest, err := rtspwire.Parse(m.Data)
+		if err != nil || len(rest) != 0 || len(items) != 1 || !items[0].Frame {
+			l.torn = append(l.torn, fmt.Sprintf("data message is not exactly one interleaved frame: %q", trunc(string(m.Data), 48)))
+			continue
+		}
+		out = append(out, items[0])
+	}
+	return out
+}
+func (l *wspLink) Disconnect()        { l.ctl.ClientClose(); l.data.ClientClose() }
+func (l *wspLink) ServerClosed() bool { return l.ctl.IsClosed() }
+func (l *wspLink) Garbled() string    { return strings.Join(l.torn, "; ") }
+func (l *wspLink) Status() int        { return l.sess.VerifStatus() }
+func (l *wspLink) ImplKey() string {
+	z := l.sess
+	return fmt.Sprintf("%d/%v/%v/%s", z.VerifStatus(), z.VerifPaused(), z.VerifHasCid(), z.VerifTransport())
+}
+func (l *wspLink) RoleKey() string {
+	return fmt.Sprintf("%d/%v/%v", l.sess.VerifStatus(), l.sess.VerifPaused(), l.sess.VerifHasCid())
+}
+func (l *wspLink) Released() string {
+	if !l.ctl.IsClosed() {
+		return "server-side-control-channel-not-closed"
+	}
+	if !l.data.IsClosed() {
+		return "server-side-data-channel-not-closed"
+	}
+	if n := l.srv.Sessions(); n != 0 {
+		return "wsp-session-still-registered"
+	}
+	return ""
+}
+
+func trunc(s string, n int) string {
+	if len(s) > n {
+		return s[:n]
+	}
+	return s
+}
+
+func open(transport string) link {
+	switch transport {
+	case "tcp":
+		return tcpLink{hs.NewTCP("c")}
+	case "ws-rtsp":
+		return wsLink{hs.NewWSRtsp("c", "/live/cam", "u")}
+	}
+	return newWSP("/live/cam")
+}
+
 // reference automaton
 type ref struct {
 	state     string // init | ready | playing | recording | closed
 	mode      string // "" | play | record
 	described bool
 	announced bool
+	wsp       bool // WSP transport: PAUSE is part of its method table
+	paused    bool
 }
 
-func (r ref) key() string { return fmt.Sprintf("%s/%s/%v/%v", r.state, r.mode, r.described, r.announced) }
+func (r ref) key() string {
+	return fmt.Sprintf("%s/%s/%v/%v/%v", r.state, r.mode, r.described, r.announced, r.paused)
+}
 
 func legal(r ref, m string) bool {
+	if r.wsp && m == "PAUSE" && r.state == "playing" {
+		return true // WSP players may pause; the other transports answer 455 (see DESIGN)
+	}
 	switch m {
 	case "OPTIONS", "TEARDOWN":
 		return true
@@ -100,7 +306,7 @@ type outcome struct {
 	det string
 }
 
-func run(hist []sym) outcome {
+func run(transport string, hist []sym) outcome {
 	var out outcome
 	fail := func(sig, d string) {
 		if out.sig == "" {
@@ -111,17 +317,23 @@ func run(hist []sym) outcome {
 	for _, s := range hist {
 		names = append(names, s.name)
 	}
-	h := strings.Join(names, " ")
+	h := transport + ": " + strings.Join(names, " ")
 	x := vrt.RunOne(func(x *vrt.Exec) {
 		vrt.Quiet(true)
 		media.VerifReset()
 		config.VerifSet(false, false, 5, "")
 		live := media.VerifNewBareStreamSDP("/live/cam", hx.SdpH264AAC)
 		media.Regist(live)
+		live2 := media.VerifNewBareStreamSDP("/live/cam2", hx.SdpH264)
+		media.Regist(live2)
+		baseStreams, _ := media.Count()
 		baseConns := stats.RtspConns.GetSample().Active
-		c := hs.NewTCP("c")
+		baseWsp := stats.WspConns.GetSample().Active
+		c := open(transport)
 		vrt.WhenIdle()
-		r := ref{state: "init"}
+		c.Drain()
+		r := ref{state: "init", wsp: transport == "wsp"}
+		statusNo := map[string]int{"init": 0, "ready": 1, "playing": 2, "recording": 3}
 		playOK := false
 		recordOK := false
 		seq := uint16(0)
@@ -130,15 +342,15 @@ func run(hist []sym) outcome {
 				out.key = "DEAD"
 				return
 			}
-			before := fmt.Sprintf("%d/%d/%v/%v/%s", c.Sess.VerifStatus(), c.Sess.VerifMode(), c.Sess.VerifHasConsumer(), c.Sess.VerifHasStream(), c.Sess.VerifPath())
+			before, beforeRole := c.ImplKey(), c.RoleKey()
 			var items []rtspwire.Item
 			cs := 0
 			if s.raw {
-				c.Conn.Close()
+				c.Disconnect()
 				vrt.WhenIdle()
 				r.state = "closed"
 			} else {
-				cs, items = c.Do(s.method, s.url, s.headers, s.body)
+				cs, items = c.Do(s)
 			}
 			// the publisher keeps publishing: one packet after every request
 			seq++
@@ -146,8 +358,8 @@ func run(hist []sym) outcome {
 			vrt.WhenIdle()
 			items = append(items, c.Drain()...)
 			where := fmt.Sprintf("history [%s] step %d (%s)", h, i, s.name)
-			if c.ParseErr != nil || len(c.Rest) != 0 {
-				fail("wire-garbled", fmt.Sprintf("%s: %v rest=%d", where, c.ParseErr, len(c.Rest)))
+			if g := c.Garbled(); g != "" {
+				fail("wire-garbled", fmt.Sprintf("%s: %s", where, g))
 				return
 			}
 			resps, frames := hs.Responses(items), hs.Frames(items)
@@ -172,7 +384,11 @@ func run(hist []sym) outcome {
 			if s.raw {
 				break
 			}
-			serverClosed := c.Srv.IsClosed()
+			if len(frames) > 0 && r.paused && s.method != "PLAY" { // a PLAY resumes delivery
+				fail("media-while-paused", fmt.Sprintf("%s: %d frames although the session is paused", where, len(frames)))
+				return
+			}
+			serverClosed := c.ServerClosed()
 			if len(resps) != 1 {
 				extra := ""
 				if serverClosed && s.method != "TEARDOWN" {
@@ -197,7 +413,7 @@ func run(hist []sym) outcome {
 					return
 				}
 			}
-			after := fmt.Sprintf("%d/%d/%v/%v/%s", c.Sess.VerifStatus(), c.Sess.VerifMode(), c.Sess.VerifHasConsumer(), c.Sess.VerifHasStream(), c.Sess.VerifPath())
+			after, afterRole := c.ImplKey(), c.RoleKey()
 			if s.method == "TEARDOWN" {
 				if !ok2xx {
 					fail("teardown-refused", where)
@@ -211,13 +427,19 @@ func run(hist []sym) outcome {
 				return
 			}
 			if !ok2xx {
-				if before != after && !(s.method == "DESCRIBE" || s.method == "ANNOUNCE") {
-					// DESCRIBE/ANNOUNCE legitimately remember the requested URL/path even when refused
-					fail("refused-request-changed-state "+s.name, fmt.Sprintf("%s: answered %d but session state went %s -> %s", where, resp.Status, before, after))
+				if resp.Status == 455 && before != after {
+					// "refused with 455 and changes nothing": every field the handlers read
+					fail("455-changed-session "+s.name, fmt.Sprintf("%s: answered 455 but the session went %s -> %s", where, before, after))
 					return
 				}
-				if c.Sess.VerifStatus() != map[string]int{"init": 0, "ready": 1, "playing": 2, "recording": 3}[r.state] {
-					fail("refused-request-changed-status "+s.name, fmt.Sprintf("%s: answered %d, status now %d, reference %s", where, resp.Status, c.Sess.VerifStatus(), r.state))
+				if beforeRole != afterRole && !(s.method == "DESCRIBE" || s.method == "ANNOUNCE") {
+					// other refusals must leave method state and roles alone (a refused SETUP may leave
+					// transport scratch fields behind; DESCRIBE/ANNOUNCE remember the requested path)
+					fail("refused-request-changed-state "+s.name, fmt.Sprintf("%s: answered %d but session state went %s -> %s", where, resp.Status, beforeRole, afterRole))
+					return
+				}
+				if c.Status() != statusNo[r.state] {
+					fail("refused-request-changed-status "+s.name, fmt.Sprintf("%s: answered %d, status now %d, reference %s", where, resp.Status, c.Status(), r.state))
 					return
 				}
 				continue
@@ -242,7 +464,12 @@ func run(hist []sym) outcome {
 					return
 				}
 				r.state = "playing"
+				r.paused = false
 				playOK = true
+			case "PAUSE":
+				if r.state == "playing" {
+					r.paused = true
+				}
 			case "RECORD":
 				if !(r.state == "ready" || r.state == "recording") || r.mode != "record" || !r.announced {
 					fail("record-out-of-order", fmt.Sprintf("%s: RECORD succeeded in reference state %s", where, r.key()))
@@ -251,33 +478,42 @@ func run(hist []sym) outcome {
 				r.state = "recording"
 				recordOK = true
 			}
-			want := map[string]int{"init": 0, "ready": 1, "playing": 2, "recording": 3}[r.state]
-			if c.Sess.VerifStatus() != want {
-				fail("status-differs-from-automaton", fmt.Sprintf("%s: session status %d, reference %s", where, c.Sess.VerifStatus(), r.state))
+			if c.Status() != statusNo[r.state] {
+				fail("status-differs-from-automaton", fmt.Sprintf("%s: session status %d, reference %s", where, c.Status(), r.state))
 				return
 			}
-			if (media.Get("/live/pub") != nil) != recordOK {
-				fail("published-without-record", fmt.Sprintf("%s: /live/pub registered=%v, RECORD succeeded=%v", where, media.Get("/live/pub") != nil, recordOK))
+			// a stream of this session exists exactly when a RECORD succeeded (the path is the one the
+			// session last described or announced, so streams are counted rather than looked up)
+			if sc, _ := media.Count(); (sc > baseStreams) != recordOK && !(recordOK && sc == baseStreams && media.Get("/live/cam") != live) {
+				// (a RECORD over the live path replaces that stream: same count, different stream)
+				fail("published-without-record", fmt.Sprintf("%s: %d streams registered besides the live ones, RECORD succeeded=%v", where, sc-baseStreams, recordOK))
 				return
 			}
 		}
-		out.key = r.key() + fmt.Sprintf("|%d/%d/%d/%v/%v", c.Sess.VerifStatus(), c.Sess.VerifMode(), c.Sess.VerifTransportType(), c.Sess.VerifHasConsumer(), c.Sess.VerifHasStream())
+		out.key = transport + "|" + r.key() + "|" + c.ImplKey()
 		// release: close the connection (if still open) and check everything is returned
 		if r.state != "closed" {
-			c.Conn.Close()
+			c.Disconnect()
 		}
 		vrt.WhenIdle()
 		if n := live.ConsumerCount(); n != 0 {
 			fail("consumer-not-released", fmt.Sprintf("history [%s]: after the session ended the live stream still has %d consumers", h, n))
 		}
-		if media.Get("/live/pub") != nil {
-			fail("published-stream-not-released", fmt.Sprintf("history [%s]: /live/pub still registered after the session ended", h))
+		if sc, _ := media.Count(); sc > baseStreams || (media.Get("/live/cam") != nil && media.Get("/live/cam") != live) {
+			fail("published-stream-not-released", fmt.Sprintf("history [%s]: %d streams registered after the session ended, %d before it", h, sc, baseStreams))
 		}
+		if n := live2.ConsumerCount(); n != 0 {
+			fail("consumer-not-released", fmt.Sprintf("history [%s]: after the session ended the second live stream still has %d consumers", h, n))
+		}
+		live2.Close()
 		if a := stats.RtspConns.GetSample().Active; a != baseConns {
 			fail("connection-count-not-restored", fmt.Sprintf("history [%s]: active RTSP connections %d, before the session %d", h, a, baseConns))
 		}
-		if !c.Srv.IsClosed() {
-			fail("server-side-connection-not-closed", fmt.Sprintf("history [%s]", h))
+		if a := stats.WspConns.GetSample().Active; a != baseWsp {
+			fail("wsp-connection-count-not-restored", fmt.Sprintf("history [%s]: active WSP connections %d, before the session %d", h, a, baseWsp))
+		}
+		if why := c.Released(); why != "" {
+			fail(why, fmt.Sprintf("history [%s]", h))
 		}
 		live.Close()
 		vrt.WhenIdle()
@@ -294,53 +530,59 @@ func run(hist []sym) outcome {
 func main() {
 	xlog.ReplaceGlobal(xlog.New(xlog.NewNopCore()))
 	rep := report.New("C12", "model_checking")
-	rep.Rule = "explicit-state BFS over request sequences (21-symbol alphabet: OPTIONS, DESCRIBE existing/missing, ANNOUNCE valid/wrong type/malformed/no formats, SETUP video|audio x tcp|udp|multicast|record|bad transport|unknown control, PLAY, RECORD, PAUSE, GET_PARAMETER, TEARDOWN, unknown method, disconnect) on a real service/rtsp Session over an in-memory connection while a publisher keeps publishing; every transition is checked against a reference automaton written from the statement (one response, CSeq, Session, 455 for illegal methods, unchanged state on refusal, no media before PLAY, no publication before RECORD, release on TEARDOWN/disconnect)"
+	rep.Rule = "explicit-state BFS over request sequences (26-symbol alphabet: OPTIONS, DESCRIBE existing/second stream/missing, ANNOUNCE valid/over a live path/wrong type/malformed/no formats, SETUP video|audio x tcp|tcp other channels|udp|multicast|record|bad transport|unknown control, PLAY, RECORD, PAUSE, GET_PARAMETER, TEARDOWN, unknown method, disconnect) on real sessions of all three transports (service/rtsp Session over an in-memory TCP connection, the same Session over a fake message-oriented websocket, service/wsp Session with control and data channel) while a publisher keeps publishing; every transition is checked against a reference automaton written from the statement (one response, CSeq, Session, 455 for illegal methods, unchanged state on refusal, no media before PLAY, no publication before RECORD, release on TEARDOWN/disconnect)"
 	rep.Assumptions = []string{"state key = reference automaton state + (session status, mode, transport type, consumer role, publisher role): handlers read nothing else", "ws-rtsp and WSP variants run the same automaton over a message-oriented fake websocket"}
-	depth := 4
+	depth := 5
 	if rep.Thorough() {
-		depth = 6
+		depth = 12
 	}
 	al := alphabet()
-	seen := map[string]bool{}
-	frontier := [][]sym{nil}
-	var states, trans int64 = 1, 0
-	for d := 0; d < depth && len(frontier) > 0; d++ {
-		var next [][]sym
-		for _, h := range frontier {
-			if rep.TimeUp() {
-				break
-			}
-			for _, s := range al {
-				nh := append(append([]sym{}, h...), s)
-				o := run(nh)
-				if o.key == "DEAD" {
-					continue
+	var states, trans int64
+	perTransport := map[string]interface{}{}
+	for _, transport := range []string{"tcp", "ws-rtsp", "wsp"} {
+		seen := map[string]bool{}
+		frontier := [][]sym{nil}
+		var st, tr int64 = 1, 0
+		maxDepth := 0
+		for d := 0; d < depth && len(frontier) > 0; d++ {
+			var next [][]sym
+			for _, h := range frontier {
+				if rep.TimeUp() {
+					break
 				}
-				trans++
-				if o.sig != "" {
+				for _, s := range al {
+					nh := append(append([]sym{}, h...), s)
+					o := run(transport, nh)
+					if o.key == "DEAD" {
+						continue
+					}
+					tr++
 					var names []string
 					for _, q := range nh {
 						names = append(names, q.name)
 					}
-					rep.Violation(o.sig, o.det, map[string]interface{}{"history": names})
-					continue
-				}
-				if !seen[o.key] {
-					seen[o.key] = true
-					states++
-					next = append(next, nh)
-					if states%13 == 1 {
-						var names []string
-						for _, q := range nh {
-							names = append(names, q.name)
+					if o.sig != "" {
+						rep.Violation(transport+" "+o.sig, o.det, map[string]interface{}{"transport": transport, "history": names})
+						continue
+					}
+					if !seen[o.key] {
+						seen[o.key] = true
+						st++
+						maxDepth = d + 1
+						next = append(next, nh)
+						if st%13 == 1 {
+							rep.Sample(transport + ": " + strings.Join(names, " ") + " => " + o.key)
 						}
-						rep.Sample(strings.Join(names, " ") + " => " + o.key)
 					}
 				}
 			}
+			frontier = next
 		}
-		frontier = next
+		perTransport[transport] = map[string]interface{}{"states": st, "transitions": tr, "deepest_new_state_at": maxDepth, "frontier_left_at_depth_bound": len(frontier)}
+		states += st
+		trans += tr
 	}
+	rep.Extra["per_transport"] = perTransport
 	rep.States, rep.Transitions, rep.TracesImpl = states, trans, trans
 	rep.Count(trans)
 	rep.SeenN(states)
